@@ -15,7 +15,7 @@ open Py
 def isDig (c : Char) : Bool := '0' ≤ c && c ≤ '9'
 /-- `[0-9a-z]` under `re.IGNORECASE` -/
 def isAlnumI (c : Char) : Bool :=
-  isDig c || ('a' ≤ c && c ≤ 'z') || ('A' ≤ c && c ≤ 'Z') || c = 'İ' || c = 'ı' || c = 'ſ' || c = 'K'
+  isDig c || ('a' ≤ c && c ≤ 'z') || ('A' ≤ c && c ≤ 'Z') || c = 'İ' || c = 'ı' || c = 'ſ' || c = 'K'
 /-- `[0-9a-f]` under `re.IGNORECASE` -/
 def isHexI (c : Char) : Bool := isDig c || ('a' ≤ c && c ≤ 'f') || ('A' ≤ c && c ≤ 'F')
 
@@ -132,12 +132,22 @@ def element (fmt : Fmt) (t : Str) (uri : Option Str) (attrs : List (Str × Str))
 end
 
 mutual
-def serializable : Node → Bool
+/-- does `_serialize_html` finish without the `ValueError` of a malformed `QName`?  Only the nodes it visits count:
+    the children of a Comment / PI and (in xhtml) of a void element are never looked at. -/
+def serializable (fmt : Fmt) : Node → Bool
   | ⟨tag, _, _, _, children, _, _⟩ =>
-    (match tag with | .qname q => (splitQName q).isSome | _ => true) && serializableList children
-def serializableList : List Node → Bool
+    match tag with
+    | .comment => true
+    | .pi => true
+    | .none => serializableList fmt children
+    | .name t => (fmt = .xhtml && isEmptyTag t) || serializableList fmt children
+    | .qname q =>
+      match splitQName q with
+      | some (_, t) => (fmt = .xhtml && isEmptyTag t) || serializableList fmt children
+      | none => false
+def serializableList (fmt : Fmt) : List Node → Bool
   | [] => true
-  | n :: r => serializable n && serializableList r
+  | n :: r => serializable fmt n && serializableList fmt r
 end
 
 end MdVerif.Ser
